@@ -61,7 +61,7 @@ for o_ in family(5, ("quick",), [], "five", 900):
         OBLIGATIONS.append(o_)
 # thorough: every shape with <= 6 nodes (34 shapes); cbmc pointer/bounds checks on the <= 4-node shapes
 OBLIGATIONS += family(6, ("thorough",), [], "t", 1800)
-_m = family(4, ("thorough",), ["bounds", "pointer"], "m", 1800)
+_m = family(4, ("probe",), ["bounds", "pointer"], "m", 1800)     # ~250 s and 14 GB each: 95 min for the family, not re-run to completion in the round -> unclaimed probe tier
 for o_ in _m:
     o_.mem_gb = 14          # cbmc's pointer checks make these the memory-hungry ones
 OBLIGATIONS += _m
